@@ -120,11 +120,17 @@ func runMerge(base *storedTable, others []*storedTable, viaBlocks bool) (out *me
 	}
 	out = &mergeOutcome{db: db}
 	var cd *diff.ColDiff
+	var pending []*merge.Merge
 	for m := range mch {
 		if m.ColDiff != nil {
 			cd = m.ColDiff
 			continue
 		}
+		pending = append(pending, m)
+	}
+	// as the CLI does (merge_cmd.go): the channel is drained first, conflicts are discarded
+	// afterwards - the collector goroutine has finished by then
+	for _, m := range pending {
 		out.conflicts = append(out.conflicts, fmt.Sprintf("%x", m.PK))
 		if err := merger.SaveResolvedRow(m.PK, nil); err != nil {
 			return nil, fmt.Errorf("SaveResolvedRow: %v", err)
